@@ -21,6 +21,9 @@ def run(prop, tier):
     if prop in ("C12", "C13"):
         import p4
         return p4.judge(prop, tier)
+    if prop == "C11":
+        import p3
+        return p3.judge(prop, tier)
     raise ToolError("no check for %s" % prop)
 
 
@@ -43,4 +46,7 @@ def replay(prop, path):
     if prop in ("C12", "C13"):
         import p4
         return p4.replay(prop, path)
+    if prop == "C11":
+        import p3
+        return p3.replay(prop, path)
     raise ToolError("no replay for %s" % prop)
